@@ -674,19 +674,9 @@ class NetworkXPropertyGraph(ABCPropertyGraph, NetworkXMixin):
         # remember that graphid is ignored in get_graph in this implementation, but respected
         # in the disjoint implementation
 
-        # merge the nodes in situ
-        nx.contracted_nodes(self.storage.get_graph(self.graph_id), real_node, real_other_node, copy=False)
-
-        # contracted_nodes() records edges both nodes had to a common neighbor in a
-        # 'contraction' attribute of the surviving edge - it is not a model property
-        for _, _, edge_props in self.storage.get_graph(self.graph_id).edges(real_node, data=True):
-            edge_props.pop('contraction', None)
-
         # deal with properties
-        # remove all properties, including 'contracted' new property
-        self.storage.get_graph(self.graph_id).nodes[real_node].clear()
-
-        # construct a new set of properties
+        # construct a new set of properties (before touching the node: a policy may name a
+        # property the other node does not have)
         new_props = dict()
         if merge_properties is None:
             new_props = node_props
@@ -698,6 +688,16 @@ class NetworkXPropertyGraph(ABCPropertyGraph, NetworkXMixin):
                             [node_props[k], other_props[k]] if merge_properties[k] == 'combine' else None
                 else:
                     new_props[k] = node_props[k]
+        # merge the nodes in situ
+        nx.contracted_nodes(self.storage.get_graph(self.graph_id), real_node, real_other_node, copy=False)
+
+        # contracted_nodes() records edges both nodes had to a common neighbor in a
+        # 'contraction' attribute of the surviving edge - it is not a model property
+        for _, _, edge_props in self.storage.get_graph(self.graph_id).edges(real_node, data=True):
+            edge_props.pop('contraction', None)
+
+        # remove all properties, including 'contracted' new property
+        self.storage.get_graph(self.graph_id).nodes[real_node].clear()
         self.storage.get_graph(self.graph_id).nodes[real_node].update(new_props)
 
     def get_stitch_nodes(self) -> List[str]:
